@@ -211,6 +211,7 @@ func Load(o LoadOpts) (*Prog, error) {
 				fi := &FuncInfo{Obj: obj, Decl: fd, Pkg: pkg}
 				p.Funcs = append(p.Funcs, fi)
 				p.funcIdx[funcKey(obj)] = fi
+				registerCanonNames(pkg.TypesInfo, fd, obj)
 			}
 		}
 	}
@@ -687,7 +688,32 @@ func isBuilderError(t types.Type) bool {
 	return isNamed(p.Elem(), modPath+"/builder", "Error")
 }
 
-func exprString(e ast.Expr) string { return types.ExprString(e) }
+// exprString renders an expression.  Identifiers that denote a parameter with a well-known role are printed
+// under the role's canonical name (canon.go), so rules that compare expression text do not depend on how a
+// function spells its parameters.
+func exprString(e ast.Expr) string {
+	s := types.ExprString(e)
+	if e == nil {
+		return s
+	}
+	var ren [][2]string
+	ast.Inspect(e, func(n ast.Node) bool {
+		if id, ok := n.(*ast.Ident); ok {
+			if c, ok := canonName(id); ok && c != id.Name {
+				ren = append(ren, [2]string{id.Name, c})
+			}
+		}
+		return true
+	})
+	done := map[string]bool{}
+	for _, r := range ren {
+		if !done[r[0]] {
+			done[r[0]] = true
+			s = replaceIdent(s, r[0], r[1])
+		}
+	}
+	return s
+}
 
 // enclosingFuncOf returns the FuncInfo whose declaration contains pos.
 func (p *Prog) enclosingFuncOf(pos token.Pos) *FuncInfo {
